@@ -146,7 +146,12 @@ def do_step(w, op):
         if i is None: return None
         j = w.pick(lambda o: o.is_ttm == P[i].is_ttm and len(o.N) <= 3 and o.cores[0].dtype == P[i].cores[0].dtype)
         if j is None: return None
-        o = P[i] ** P[j]
+        form = rng.choice(["**", "**", "kron()", "x**None", "None**x", "kron(x,None)", "kron(None,x)"])
+        if form in ("x**None", "None**x", "kron(x,None)", "kron(None,x)"):      # the accumulation idiom: the result is a new object holding copies of x's cores
+            x = P[i]
+            o = (x ** None) if form == "x**None" else ((None ** x) if form == "None**x" else (torchtt.kron(x, None) if form == "kron(x,None)" else torchtt.kron(None, x)))
+            w.add(o, "KClone %d" % i); return "%s(%d)" % (form, i), None
+        o = (P[i] ** P[j]) if form == "**" else torchtt.kron(P[i], P[j])
         w.add(o, "KKron %d %d" % (i, j)); return "kron(%d,%d)" % (i, j), None
     if op == "matmul":
         i = w.pick(lambda o: o.is_ttm and size_ok(o))
@@ -419,8 +424,24 @@ def run_walk(seed, length, dtype):
             res = ("%s [raised]" % op, None)
         if res is None: continue
         name, target = res
+        n_before = len(w.snaps) if target is not None else None
         w.log.append(name)
         w.after(name, target)
+        # a NEW result that is an existing object, or that holds an existing object's core list, is one documented in-place call away from altering
+        # that object: make the call (set_core on the new result, same shape) so that the ordinary frame check sees whether anything else moves
+        if target is None and w.pool:
+            j = len(w.pool) - 1; o = w.pool[j]
+            if any(o is p_ or o.cores is p_.cores for p_ in w.pool[:j]) and not name.startswith("scribble"):
+                try:
+                    torch, _ = _imp()
+                    c0 = o.cores[0].detach()
+                    shp0 = list(c0.shape); shp0[-2] += 1                      # another mode size: a stale N / shape of the aliased object shows as ill-formedness too
+                    o.set_core(0, torch.ones(shp0, dtype=c0.dtype))
+                    w.calls.append("KSetCore %d 0 (%s)" % (j, cshape_coq(tuple(o.cores[0].shape))))
+                    w.log.append("set_core(%d,0) [aliasing probe]" % j)
+                    w.after("set_core(%d,0) [aliasing probe after %s]" % (j, name), j)
+                except Exception:
+                    pass
     return w
 
 def encode_obj(o):
